@@ -285,6 +285,21 @@ pub fn tool(cmd: &str, args: &[String]) -> i32 {
                 None => { println!("NO-WITNESS (perturbed encodings of one Falcon-512 secret key: lengths, header bits, reserved field values, 200 bit flips; plus search-keygen)"); 0 }
             }
         }
+        "samplerz-case" => {
+            let f = |i: usize| f64::from_bits(u64::from_str_radix(&args[i], 16).unwrap());
+            let sd: u64 = args[3].parse().unwrap();
+            match crate::samplerz::verif::samplerz_case(f(0), f(1), f(2), sd) {
+                Ok(()) => { println!("sampler_z returns and agrees with Algorithm 15 on this input"); 0 }
+                Err(why) => { println!("REPRODUCED {}", why); 1 }
+            }
+        }
+        "search-samplerz" => {
+            let seed: u64 = args.get(0).and_then(|s| s.parse().ok()).unwrap_or(0);
+            match crate::samplerz::verif::search_samplerz(seed) {
+                Some(d) => { println!("WITNESS {}", d); 1 }
+                None => { println!("NO-WITNESS (sampler_z at 14 extreme centres x 3 widths x 2 sigma_min; 40000 random (mu, sigma') against Algorithm 15 on the same bytes)"); 0 }
+            }
+        }
         "ntt-case" => {
             let pa: Vec<i64> = args[0].split(';').filter(|s| !s.is_empty()).map(|s| s.parse().unwrap()).collect();
             let pb: Vec<i64> = args[1].split(';').filter(|s| !s.is_empty()).map(|s| s.parse().unwrap()).collect();
